@@ -8,6 +8,7 @@ package main
 import (
 	"fmt"
 	"os"
+	"strings"
 	"time"
 
 	"veriftxn/common"
@@ -128,6 +129,44 @@ func main() {
 				}
 			}
 		}
+	}
+	// A commit that fails definitely (the store answers one prewrite with a write conflict) while another
+	// client expires the remaining locks: the reader arrives as an explored actor as soon as Commit has
+	// returned, racing with the committer's asynchronous clean-up; two preemptions (one to get ahead of
+	// the clean-up, one to reorder the answers to the reader's concurrent status checks).
+	for _, er := range common.ExploredRecoveryWith(run.Thorough(), keys, "reader-after-failed-commit") {
+		if !run.Thorough() && !(strings.Contains(er.Name, "async") && strings.Contains(er.Name, "split@b,c")) {
+			continue
+		}
+		er := er
+		mk := func() *txnh.TxnScenario {
+			sc := er.Make()
+			sc.CheckFn = func(s *txnh.TxnScenario, x *sched.Exec) []sched.Violation {
+				v := s.H.Txns[0]
+				if v.Outcome == "open" || v.Outcome == "unstarted" {
+					return nil
+				}
+				out, _, t := common.AuditVictimR(s, x, 0, "", "reader-gc")
+				if t != nil {
+					t.Splits = er.Splits
+					for _, sv := range txnh.AuditSI(s.H, t) {
+						sv.Key = "si:" + sv.Key
+						out = append(out, sv)
+					}
+				}
+				return out
+			}
+			return sc
+		}
+		specs[er.Name] = mk
+		jobs = append(jobs, sched.Job{Name: er.Name, Run: func(dl time.Time) sched.Report {
+			sc := mk()
+			x := &sched.Explorer{Sc: sc, B: sched.Bounds{P: 2, F: 1, Horizon: 500, EarlyTimers: false, Deadline: dl}}
+			x.Outcome = func(e *sched.Exec) string {
+				return sc.H.Txns[0].Outcome + ":" + sc.H.Txns[0].CommitErr + fmt.Sprint(len(sc.W.Log()))
+			}
+			return x.Explore(false)
+		}})
 	}
 	if common.HandleReplay(run, jobs, func(name string) sched.Scenario {
 		if mk, ok := specs[name]; ok {
